@@ -274,6 +274,8 @@ class API:
 # builtins seen by the rewritten code
 
 def _b_len(x):
+    if hasattr(x, "__pyvc_len__"):
+        return x.__pyvc_len__()
     if isinstance(x, (SSeq, SArr)):
         return sym.seq_len(x)
     return _bi.len(x)
